@@ -597,4 +597,19 @@ def not_apply(prog):
                           'operand' % n['l'], 'dominated by the is_not test', False))
     if not obs:
         raise AnalysisBroken('NOT-APPLY: no `state = 1` in parse_ifdef_expression')
-    return RuleResult('NOT-APPLY', obs, 1, {})
+    # every store to is_not other than the clearing one toggles it: `!!A` is A, so the store must read the old value
+    nt = 0
+    for n in sorted(fn.nodes.values(), key=lambda x: x['i']):
+        if n['k'] in ('BinaryOperator', 'CompoundAssignOperator') and n.get('op', '').endswith('=') and \
+                n['op'] not in ('==', '!=', '<=', '>=') and strip(kids(n)[0]).get('n') == 'is_not':
+            if n['op'] == '=' and const(kids(n)[1]) == 0:
+                continue
+            nt += 1
+            reads_old = n['k'] == 'CompoundAssignOperator' or any(
+                x['k'] == 'DeclRefExpr' and x.get('n') == 'is_not' for x in walk(kids(n)[1]))
+            obs.append(Ob('NOT-APPLY', fn.file, n['l'], fn.q, 'toggle#%d' % nt, DISCHARGED if reads_old else VIOLATED,
+                          '' if reads_old else '`%s` sets the pending negation without reading its old value: a second `!` no longer '
+                          'cancels the first (`!!A` evaluates as `!A`)' % show(n), 'the store toggles the flag', False))
+    if nt == 0:
+        raise AnalysisBroken('NOT-APPLY: no store that sets is_not in parse_ifdef_expression')
+    return RuleResult('NOT-APPLY', obs, 2, {})
